@@ -177,6 +177,7 @@ META["C26"] = dict(technique=_FN_TECH, note="The ICE/DTLS negotiation that produ
          "WebRtcLink.tla: local role (offerer listens / answerer dials) x other end authenticating as the signaled peer or another key: a link is established iff it is the signaled peer, and names it.")
 REGISTRY["C40"] = ("fn", "c40")
 HOOK_COMMITS.append("a0586f6")
+HOOK_COMMITS.append("a5f65bc")
 META["C40"] = dict(technique=_FN_TECH,
     note="This is model-driven structured mutation, not coverage-guided fuzzing; 'every byte string' is sampled by class. The WebRTC signal decoder is exercised by C26 (tamper / garbage classes).",
     text="WireGrammar.tla enumerates decoder x malformed-frame class x variant; each case is built from a valid encoding and fed to the real decoder under recover with the allocation measured: "
